@@ -313,7 +313,7 @@ Ltac c16_polar :=
 
 (** one lemma per axis case: a conjunction of tagged comparisons; a comparison that cannot be closed is
     reported ("C16FAIL <tag>") and left open, so that all failing comparisons of a case are listed *)
-Definition c16_tag (i : nat) (P : Prop) : Prop := P.
+Definition c16_tag (i : Z) (P : Prop) : Prop := P.
 
 Ltac c16_one :=
   lazymatch goal with
